@@ -169,9 +169,14 @@ def decode_cases():
     return [base, mut(2, rc=1), mut(3, crashed="NameLookupError"), mut(4, same=False), mut(5, count=-1), mut(6, count=2),
             mut(7, verbose=True, warnings=0), mut(8, verbose=True, warnings=1), mut(9, kinds=["function_removed"], stub_present=True),
             mut(10, kinds=["function_removed"], stub_present=False, no_traces_msg=True),
-            mut(11, cmd="stub_diff", verbose=True, warnings=2), mut(12, kinds=["valid", "dunder_removed"], count=-1)], {
+            mut(11, cmd="stub_diff", verbose=True, warnings=2), mut(12, kinds=["valid", "dunder_removed"], count=-1),
+            # every decodable row belongs to another module now: no stub for this one, the stale row is still counted
+            mut(13, kinds=["moved_function", "function_removed"], stub_present=False, no_traces_msg=True, count=1),
+            mut(14, kinds=["moved_function", "function_removed"], stub_present=False, no_traces_msg=True, count=-1),
+            mut(15, kinds=["moved_function"], stub_present=True, no_traces_msg=False, count=-1)], {
         1: set(), 2: {"NeverFatal"}, 3: {"NeverFatal"}, 4: {"OutputEqualsDecodableOnly"}, 5: {"CountReported"}, 6: {"CountReported"},
-        7: {"EachReported"}, 8: set(), 9: {"NoTracesSaid"}, 10: set(), 11: set(), 12: {"CountReported"}}
+        7: {"EachReported"}, 8: set(), 9: {"NoTracesSaid"}, 10: set(), 11: set(), 12: {"CountReported"},
+        13: set(), 14: {"CountReported"}, 15: {"NoTracesSaid"}}
 
 
 def interfere_cases():
@@ -220,9 +225,34 @@ def apply_cases():
     return [base, mut(2, erasure=False), mut(3, idempotent=False), mut(4, res=""), mut(5, res_imports=[imp("from", "zshapes", "Circle", "", "tc")]),
             mut(6, res_imports=base["res_imports"][:1] + [imp("from", "zshapes", "Circle", "", "top")]), mut(7, importable=False),
             mut(8, future_first=False), mut(9, failed=True), mut(10, src="str", src_raw="str", res="int", res_raw="int"),
-            mut(11, res_imports=base["res_imports"][:1] + [imp("from", "zshapes", "Circle", "", "tc", True)])], {
+            mut(11, res_imports=base["res_imports"][:1] + [imp("from", "zshapes", "Circle", "", "tc", True)]),
+            # the stub's import was taken out of the run-time part and put nowhere; and the same with `import m` left for `m.X`
+            mut(12, stub_imports=[{"module": "zsh.deep", "name": "Deep"}], res_imports=base["res_imports"][:1]),
+            mut(13, stub_imports=[{"module": "zshapes", "name": "Square"}], res_imports=base["res_imports"][:1])], {
         1: set(), 2: {"ErasureEqual"}, 3: {"Idempotent"}, 4: {"AnnotationsPresent"}, 5: {"ExistingUnmoved"}, 6: {"ConfinedAllNew"},
-        7: {"Importable"}, 8: {"FutureFirst"}, 9: {"ApplyFails"}, 10: {"ExistingKept"}, 11: {"ConfinedOnlyNewAnnotationOnly"}}
+        7: {"Importable"}, 8: {"FutureFirst"}, 9: {"ApplyFails"}, 10: {"ExistingKept"}, 11: {"ConfinedOnlyNewAnnotationOnly"},
+        12: {"ConfinedAllNew"}, 13: set()}
+
+
+def rewrite_cases():
+    """One RewriteLargeUnion(2) step each: what may and what may not differ between input and output (OnlyOnTrigger, positionally)."""
+    T = absmodel.T
+    INT, STR, FLT, ANY = T("cls", "int"), T("cls", "str"), T("cls", "float"), T("any")
+    U = lambda *ms: T("union", "", [], list(ms))  # noqa: E731
+    tup = lambda x: T("tuple", "", [x, INT, INT])  # noqa: E731
+    u3 = U(INT, STR, FLT)
+
+    def rec(tid, pre, post):
+        return {"tid": tid, "chain": ["RLU2"], "cname": "RLU2", "pre": pre, "post": post, "err": "NONE", "seen": [],
+                "steps": [{"rw": "RLU2", "n": 0, "rawu": 3, "pre": pre, "post": post, "err": "NONE"}]}
+    return [rec(1, u3, ANY),                                        # the large union itself collapses
+            rec(2, T("list", "", [u3]), T("list", "", [ANY])),      # ... inside a container
+            rec(3, U(tup(u3), INT), U(tup(ANY), INT)),              # ... inside a member of a small union
+            rec(4, U(tup(u3), tup(ANY)), tup(ANY)),                 # two members that coincide afterwards
+            rec(5, U(tup(u3), tup(ANY)), ANY),                      # the SMALL union collapsed: no trigger at that node
+            rec(6, U(tup(u3), INT), U(tup(ANY), STR)),              # a member changed that carries no trigger
+            rec(7, U(INT, STR), U(INT, STR))], {
+        1: set(), 2: set(), 3: set(), 4: set(), 5: {"OnlyOnTrigger"}, 6: {"OnlyOnTrigger"}, 7: set()}
 
 
 def main():
@@ -245,6 +275,9 @@ def main():
     ok &= expect("interfere", "MTInterfereTrace", "MTInferTrace.cfg", recs, want)
     recs, want = filter_cases()
     ok &= expect("filter", "MTFilterTrace", "MTInferTrace.cfg", recs, want)
+    recs, want = rewrite_cases()
+    from . import replay_rewrite
+    ok &= expect("rewrite", "MTRewriteTrace", None, recs, want, dict(env, **{"MTRewriteTrace.cfg": replay_rewrite.trace_cfg()}))
     recs, want = apply_cases()
     ok &= expect("apply", "MTApplyTrace", None, recs, want,
                  {"MTApplyTrace.cfg": "SPECIFICATION Spec\nCONSTANTS\n  Dev_RemoveByModule = FALSE\nCHECK_DEADLOCK FALSE\n"})
